@@ -51,6 +51,17 @@ func (h H) singleApplier(rule string) {
 						}
 					}
 				}
+				// each method has its own place: a dirty read runs one Read, it
+				// never walks on into the updates queued behind it
+				per := map[string]map[string]bool{
+					"Update":   {"(*stateMachine).onApply": true},
+					"Read":     {"(*stateMachine).onApply": true, "(*stateMachine).runLoop": true},
+					"Snapshot": {"(*stateMachine).onSnapReq": true},
+					"Restore":  {"(*stateMachine).onRestoreReq": true},
+				}
+				if set, ok := per[m]; ok {
+					h.C.Check(rule+" who-invokes-FSM method", "FSM."+m+" in "+name, set[name], h.pos(in), "FSM."+m+" is invoked from "+name+": updates are applied only by onApply (in log order, at the commit index), a dirty read only reads")
+				}
 				h.C.Check(rule+" who-invokes-FSM", "FSM."+m+" in "+name, allowed[name] && !spawned, h.pos(in), fmt.Sprintf("the user's state machine is invoked outside the FSM goroutine's methods (in a goroutine started there: %v)", spawned))
 			}
 		})
